@@ -989,14 +989,13 @@ func gatePanic(stderr string) bool {
 	if k := strings.Index(rest, "\n\n"); k >= 0 {
 		rest = rest[:k]
 	}
+	// The panic counts as gate's if it passed through gate code on its way out: either it
+	// was raised there, or a callback gate invoked (a session handler, an event subscriber)
+	// panicked and gate did not contain it.
 	for _, m := range frameRe.FindAllString(rest, -1) {
-		if strings.Contains(m, "/zzverif/") {
-			if strings.Contains(m, "/zzverif/simrt.") {
-				continue // hooks are transparent
-			}
-			return false
+		if !strings.Contains(m, "/zzverif/") {
+			return true
 		}
-		return true
 	}
 	return false
 }
